@@ -197,6 +197,7 @@ def check(src, rep):
     # which exception classes raised by a table decoder leave the AutoDecoder: decided by interpreting both decode methods (E-ABS) with every
     # decoder replaced by an oracle that raises the class in question -- independent of how the try/except is written
     from sa.abseval import AbsEval, AObj, AbsRaise
+    from sa.sveval import Res
     AC = M.classes.get(("autodecoder", "AutoDecoder"))
     if AC is None or "decode_message_payload" not in AC.methods or "decode_message" not in AC.methods:
         raise Undecided("anchor vanished: AutoDecoder.decode_message_payload / decode_message")
@@ -217,7 +218,15 @@ def check(src, rep):
                 AE.func_hooks[("dlde", "decode_p1_readout")] = oracle
                 for prev in (None, 3):
                     for mtype in (("HdlcFrame", "DataReadout") if mname == "decode_message" else ("payload",)):
-                        obj = AObj("AutoDecoder", {m_: prev for m_ in mem}, cls_key=("autodecoder", "AutoDecoder"))
+                        obj = AObj("AutoDecoder", {}, cls_key=("autodecoder", "AutoDecoder"))
+                        if AC.methods.get("__init__") is not None:
+                            AE0 = AbsEval(M)
+                            AE0.apply(AC.methods["__init__"], [obj])
+                        if prev is not None:
+                            AEp = AbsEval(M)
+                            for k_, (nm_, fr_) in enumerate(table):
+                                AEp.func_hooks[(fr_.mod, fr_.node.name)] = (lambda args, kw, k_=k_: (Res("r") if k_ == prev else (_ for _ in ()).throw(AbsRaise("ValueError"))))
+                            AEp.apply(AC.methods["decode_message_payload"], [obj, b"\x01\x02"])
                         arg = b"\x01\x02" if mtype == "payload" else AObj(mtype, {"payload": b"\x01\x02", "is_valid": True, "as_bytes": b"\x01\x02"})
                         r = AE.apply(AC.methods[mname], [obj, arg])
                         if r[0] in ("undecided", "branch"):
